@@ -97,8 +97,28 @@ fn mutate_pdb(rng: &mut Rng, text: &str) -> (String, &'static str) {
 }
 
 fn mutate_cif(rng: &mut Rng, text: &str) -> (String, &'static str) {
-    let k = rng.below(5);
+    let k = rng.below(7);
     match k {
+        5 => {
+            // diagnostics that only the final validation produces: no atom_site table at all
+            match text.find("loop_\n_atom_site.") {
+                Some(at) => (text[..at].to_string(), "no-atoms"),
+                None => (text.to_string(), "unchanged"),
+            }
+        }
+        6 => {
+            // the last atom line gets another atom name: with several models they no longer correspond
+            let mut lines: Vec<String> = text.lines().map(|s| s.to_string()).collect();
+            let at = lines.iter().rposition(|ln| ln.starts_with("ATOM") || ln.starts_with("HETATM"));
+            if let Some(at) = at {
+                let mut f: Vec<String> = lines[at].split_whitespace().map(|s| s.to_string()).collect();
+                if f.len() > 3 {
+                    f[3] = "QX".to_string();
+                }
+                lines[at] = f.join(" ");
+            }
+            (lines.join("\n") + "\n", "models-differ")
+        }
         0 => (text.replacen("_atom_site.Cartn_x", "_atom_site.Cartn_q", 1), "missing-column"),
         1 => (format!("{text}\n_cell.length_a abc\n"), "bad-cell"),
         2 => (text.replacen("ATOM", "FOO", 1), "bad-group"),
